@@ -1150,6 +1150,20 @@ CORPUS += [
 ]
 
 
+# a remainder whose divisor is a compound constant - x % (2*math.pi), x % math.tau, x % (math.pi/2), x % (3*math.e) - in a
+# derived quantity and in a rate law: fixed cases, so that the parentheses of `_mod_operands` are checked for every seed
+for _div in [["*", ["c", "2"], ["m", "pi"]], ["m", "tau"], ["/", ["m", "pi"], ["c", "2"]], ["*", ["c", "3"], ["m", "e"]]]:
+    CORPUS += [
+        {"content": {"vars": [["x", {"v": "8"}]], "pars": [["p", {"v": "2"}]],
+                     "derived": [["d", _rich(["x", "p"], ["+", ["%", ["a", 0], _div], ["a", 1]])]],
+                     "rxns": [["r", {"args": ["d", "x"], "e": ["*", ["a", 0], ["a", 1]], "st": [["x", {"c": "-1"}]]}]]},
+         "free": [], "langs": ["py"], "oracle_only": True, "states": [["0", ["8"], []], ["0", ["5"], []]], "stratum": "corpus"},
+        {"content": {"vars": [["x", {"v": "8"}]], "pars": [["p", {"v": "2"}]], "derived": [],
+                     "rxns": [["r", dict(_rich(["x", "p"], ["*", ["%", ["a", 0], _div], ["a", 1]]), st=[["x", {"c": "-1"}]])]]},
+         "free": [], "langs": ["py"], "oracle_only": True, "states": [["0", ["8"], []], ["0", ["5"], []]], "stratum": "corpus"},
+    ]
+
+
 def setup(ctx):
     ctx.translate(tr07.generate)
     ctx.build(PROPS)
